@@ -2,6 +2,6 @@ package main
 
 func init() {
 	plans["C06"] = Plan{Pkg: pkg("C06"), Steps: []Step{
-		{Run: "TestLimits", Quick: 480, Thorough: 8000, QShards: 8, TShards: 16},
+		{Run: "TestLimits", Quick: 400, Thorough: 8000, QShards: 8, TShards: 16},
 	}}
 }
